@@ -32,16 +32,16 @@ CLAIMED = {
    note="Nothing is required to fail except the size clause; fault kinds are counted when they actually fire; panics of the (unclaimed, C13) text parser on malformed text are evaluated outside the packet and not charged here."),
  "C11": dict(cat="exploration", sec="5.4", engine="lane-N",
    technique="seeded simulation of complete delete-while-iterating walks against a reference model",
-   text="Sections of 0-12 uniquely tagged records (all four sections, OPT first/middle/last/absent, compressed or not) walked to the end with a seeded deletion policy (which records, on which visit, optional double delete); checks bounded termination ((n+1)^2+4 yields), exact removal, void-record on second delete with nothing touched, no yield that is not a current record with the model's content, every survivor yielded at least once, final section = survivors in order with matching count, emptied section absent.",
-   note="The cursor is identified with a record through its public offset(), so no particular restart protocol is assumed; OPT is required to be yielded only by walks that use next_including_opt throughout."),
+   text="Sections of 0-12 (now and then 254-258) uniquely tagged records (all four sections, OPT first/middle/last/absent, compressed or not, root-name questions included) walked to the end with a seeded deletion policy (which records, on which visit, optional double delete); checks bounded termination ((n+1)^2+4 yields), exact removal, void-record on second delete with nothing touched, no yield that is not a current record with the model's content, every survivor yielded at least once, final section = survivors in order with matching count, emptied section absent.",
+   note="The cursor is identified with a record through its public offset(), so no particular restart protocol is assumed; OPT is required to be yielded only by walks that use next_including_opt throughout. A deletion through a live cursor may not be refused when the packet is parser-accepted and at most 8192 bytes decompressed; every walk that runs to its end (with or without deletions, whatever earlier walks did) must have yielded every record of its section."),
  "C15": dict(cat="exploration", sec="5.5", engine="lane-C",
    technique="deterministic simulation of hook scripts: C driver compiled against the shipped header vs native API twin (differential), canaries, crash attribution",
    text="Seeded hook scripts (top-level table calls and per-record callback programs, with injected failing calls) are executed by a C interpreter compiled by the system compiler against /repo/src/bin/c_hook/c_hook.h through `const FnTable *`, and in lockstep through the native Rust API on a twin packet; per step the return values, out-parameters, NUL-terminated names, error descriptions, packet bytes and object state must be equal. Caller buffers are exact-size and fenced by canaries; a worker process that dies inside a table call on a precondition-respecting script - or a native call that panics, which through an extern C entry is an abort - is a violation attributed to the run and call in flight; one signature probe per table entry is compiled against the header at build time; a Miri slice runs table scripts through the function pointers with exact-size buffers.",
    note="The native API is the reference, so defects shared by both sides are invisible here (C08-C11 cover them); the native call runs first and a native panic ends the script without involving the table. Canaries catch contiguous overruns only. Probe argument types were derived from src/c_abi.rs at the pinned commit."),
  "C16": dict(cat="exploration", sec="5.6", engine="lane-T",
    technique="deterministic step scheduler over real parked OS threads (seeded uniform and PCT schedules)",
-   text="2-4 real OS threads (real thread_local! storage) each run a seeded script of failing table calls (12 kinds), description reads and succeeding calls; a simulator thread alone chooses, from the seed, which thread performs its next call, so every interleaving is exactly repeatable. At every read the string must equal the text of that thread's most recent failure, the expected text being taken from the native error of the same call. Swarm per run: a palette of 2-22 failure kinds (17 distinct texts), optional bursts of 30-320 short-lived failing threads (thread churn). A dependence on failures of threads of earlier runs of the same process is reported as a replayable run sequence. A Miri slice (seeded preemptive scheduler, data-race detection) runs the same kind of workload with preemption inside calls.",
-   note="Interleaving is at call granularity; preemption inside a call and data races are the Miri lane's business (see DESIGN.md 5.6). shuttle/loom are unusable here because they multiplex threads on one OS thread and would share std::thread_local!."),
+   text="2-4 real OS threads (real thread_local! storage) each run a seeded script of failing table calls (12 kinds), description reads and succeeding calls; a simulator thread alone chooses, from the seed, which thread performs its next call, so every interleaving is exactly repeatable. At every read the string must equal the text of that thread's most recent failure, the expected text being taken from the native error of the same call. Swarm per run: a palette of 2-22 failure kinds (17 distinct texts), optional bursts of 30-320 short-lived failing threads (thread churn), and in a third of the runs failing calls with an unusual error out-parameter (NULL, or a variable still holding the pointer another live thread was given). A dependence on failures of threads of earlier runs of the same process is reported as a replayable run sequence. A Miri slice (seeded preemptive scheduler, data-race detection) runs the same kind of workload with preemption inside calls.",
+   note="Interleaving is at call granularity; preemption inside a call and data races are the Miri lane's business (see DESIGN.md 5.6). shuttle/loom are unusable here because they multiplex threads on one OS thread and would share std::thread_local!. After a failing call made with a NULL out-pointer the thread's next read may show its previous description or that call's (the property does not settle it); other threads' descriptions must be untouched either way."),
  "C17": dict(cat="exploration", sec="5.7", engine="lane-T",
    technique="deterministic simulation of call histories, cross-thread schedules and clock skew against isolated baselines",
    text="A pool of seeded inputs sharing a small label alphabet (so suffixes overlap, including >32-suffix packets) is evaluated call by call in fresh threads (baseline), then in seeded orders with repeats on one long-lived thread and interleaved over 2-4 parked threads under a seeded schedule; every outcome (Ok bytes | Err text | panic text) must equal its baseline; gen::query / empty-packet results may differ only in bytes 0-1. Pools include renames that fail part-way, twin renames (same names, other matching mode) scheduled back to back, case-variant record texts and name conversion through the C table. A dependence on earlier runs of the same process is reported as a replayable run sequence; a Miri slice adds preemption inside calls and data-race detection; a clock-skew slice (wall clock shifted 400 days through a preloaded seam) re-executes runs and requires identical event logs.",
